@@ -265,17 +265,21 @@ def _postfix_from_infix(identifier: str, expression: list[TokenT | str | int]) -
         msg = f"Argument list empty ({identifier})"
         raise SyntaxError(msg)
 
-    if maybe_multiaxis := _maybe_multiaxis(identifier, expression):
-        return maybe_multiaxis
-
     # Convert infix to postfix using shunting yard algorithm
     scope_vars: set[str] = set()
     stack: list[str | _DLTypeOperator] = []
     postfix: list[str | int | _DLTypeOperator] = []
     current_index = 0
+    # operands and infix operators must alternate, starting and ending with an operand
+    expect_operand = True
 
     while current_index < len(expression):
         token = expression[current_index]
+
+        if (token in _infix_operators) == expect_operand:
+            msg = f"Expected an {'operand' if expect_operand else 'operator'} in {identifier} [{token=}] pos={current_index}/{len(expression)}"
+            raise SyntaxError(msg)
+        expect_operand = not expect_operand
 
         if isinstance(token, int):
             postfix.append(token)
@@ -292,6 +296,9 @@ def _postfix_from_infix(identifier: str, expression: list[TokenT | str | int]) -
             _flush_op_by_precedence(stack, postfix, current_op)
 
             lparen, comma_indices, rparen = _get_group_indices(expression[current_index:], current_index)
+            if token in _functional_operators and lparen != current_index + 1:
+                msg = f"{token.value} must be followed by its argument list"
+                raise SyntaxError(msg)
             if token in _binary_functions and len(comma_indices) != 1:
                 msg = f"{token.value} requires two arguments, received {len(comma_indices) + 1}"
                 raise SyntaxError(msg)
@@ -319,6 +326,10 @@ def _postfix_from_infix(identifier: str, expression: list[TokenT | str | int]) -
         else:
             msg = f"Invalid expression={identifier} [{token=}] pos={current_index}/{len(expression)}"
             raise SyntaxError(msg)
+
+    if expect_operand:
+        msg = f"Expression {identifier} ends with an operator"
+        raise SyntaxError(msg)
 
     # Pop any remaining operators
     while stack:
@@ -446,7 +457,20 @@ def expression_from_string(expression: str) -> DLTypeDimensionExpression:
 
     # split the expression into the identifier and the expression if it has a specifier
     identifier = expression
-    if _DLTypeSpecifier.EQUALS.value in expression:
+    is_named = _DLTypeSpecifier.EQUALS.value in expression
+    if is_named:
         identifier, expression = expression.split(_DLTypeSpecifier.EQUALS.value, maxsplit=1)
+        if not _VALID_IDENTIFIER_RX.match(identifier):
+            msg = f"{identifier} is not a valid dimension name"
+            raise SyntaxError(msg)
     tokenized = _tokenize_string_expr(expression)
-    return _postfix_from_infix(identifier, tokenized)
+    if maybe_multiaxis := _maybe_multiaxis(identifier, tokenized):
+        if is_named:
+            msg = f"A multiaxis modifier cannot be given a name with {_DLTypeSpecifier.EQUALS.value}"
+            raise SyntaxError(msg)
+        return maybe_multiaxis
+    parsed = _postfix_from_infix(identifier, tokenized)
+    if is_named and identifier in parsed.parsed_expression:
+        msg = f"Self-referential expression {parsed=}"
+        raise SyntaxError(msg)
+    return parsed
